@@ -111,7 +111,7 @@ def _expect(exp_out=None, err_sub=None):
 
 
 def replays(failed):
-    yield ("[xs.., ys..] == xs + ys", "xs := [1, 2]\nys := [3]\nprint([xs.., ys..] == xs + ys)\n", _expect("true\n"))
+    yield ("[xs.., ys..] == xs + ys", "xs := [1, 2]\nys := [3]\nprint([xs.., ys..] == (xs + ys))\n", _expect("true\n"))
     yield ("spread keeps order", "xs := [1, 2]\nfor p in [0, xs.., 3] {\n    print(p[1])\n}\n", _expect("0\n1\n2\n3\n"))
     yield ("f(xs..) is f(xs[0], xs[1])", "fn f(a, b) {\n    print(a)\n    print(b)\n}\nxs := [1, 2]\nf(xs..)\n", _expect("1\n2\n"))
     yield ("spread of a non-list", "x := 1\ny := [x..]\n", _expect(err_sub="only lists can be spread"))
